@@ -607,6 +607,11 @@ async fn run_scenario(scn: &Scenario, watchdog: Duration) -> Outcome {
     let end;
     loop {
         tokio::time::sleep(Duration::from_millis(15)).await;
+        // the watchdog comes first: no branch below may keep a scenario alive beyond it
+        if t0.elapsed() > watchdog {
+            end = EndReason::Watchdog;
+            break;
+        }
         let done = sh.senders_done.load(Ordering::SeqCst) == n_senders;
         let main_done = sh.main_done.load(Ordering::SeqCst) == n_senders;
         if main_done && senders_done_at.is_none() {
